@@ -26,6 +26,7 @@ package template
 //@   at call append#3 set addedT = addedT + 1
 //@   at call append#3 assert[the-template-list-grows-by-this-template;C07] sameslice(arg0, r.Templates)
 //@   ensures[every-template-of-the-file-is-registered-for-the-checks;C07] isnil(result) ==> seenT == addedT
+//@   at call store#13 assert[only-the-leading-header-params-are-taken-off-the-body;C15,C02] len(val) == len(tn.Body.Nodes) - len(headerParams) && subslice(val, tn.Body.Nodes, len(headerParams)) && forall(k, 0, len(headerParams), typeis(tn.Body.Nodes[k], *ast.HeaderParamNode))
 //@   at call store#9 assert[folded-header-param-keeps-its-name;C07] val == param.Name
 //@   at call store#10 assert[folded-header-param-keeps-its-optional-flag;C07] val == param.Optional
 //@   loop 0
@@ -36,6 +37,7 @@ package template
 //@     decreases len(soyfile.Body) - i
 //@   loop 2
 //@     invariant len(headerParams) == rangeindex + 1 && rangeindex + 1 <= len(tn.Body.Nodes) && registryOK(r) && sdn != nil
+//@     invariant[header-params-so-far;C15,C02] forall(k, 0, rangeindex + 1, typeis(tn.Body.Nodes[k], *ast.HeaderParamNode))
 
 //@ func (*Registry).Template
 //@   props C06
